@@ -26,8 +26,9 @@ LEVEL = "other"
 NOT_COVERED = [
     "the stream-level induction (any segmentation of a well-formed frame sequence is decoded to the same frames) is "
     "the standard argument over the per-call contracts of processData[header] / processData[payload]; it is not "
-    "mechanised", "permessage-compress (C12)", "the streaming send API (beginMessage / sendMessageFrameData ...) and "
-    "PreparedMessage", "hand-over of the octets that follow the HTTP handshake (C07)",
+    "mechanised", "the compression codecs behind the compressor interface, decompression in the frame hooks (C12)",
+    "the streaming send API with a compression extension (send_compressed), sendMessageFrame as a unit of its own, "
+    "PreparedMessage / sendPreparedMessage", "hand-over of the octets that follow the HTTP handshake (C07)",
 ]
 
 
